@@ -198,10 +198,12 @@ def programs_nf(tier, seed):
                   ("async_spawn", (1, 1), 1, False, False), ("try_async_spawn", (1, 1), 1, False, False),
                   ("join_async", (2, 1), 1, True, False), ("join_async", (2, 2), 1, True, True), ("try_join_async", (2, 1), 1, True, False), ("join_async", (1, 2), 1, True, False),
                   ("join_async", (1,), 2, False, False), ("join_async", (2,), 1, False, False),
-                  ("join_async", (2, 2), 1, True, "athen"), ("join_async_spawn", (2, 2), 1, True, "athen"), ("try_join_async", (2, 2), 1, True, False), ("join_async", (1, 2, 2), 1, True, "athen"),
+                  ("join_async", (2, 2), 1, True, "athen"), ("join_async", (1, 2, 2), 1, True, "athen"),
+                  # (measured under load: (2, 2) under join_async_spawn! with `->` steps and under try_join_async! with `=>` async-fn steps hit the caps; the sstep forms below replace them)
                   # (measured: (2, 2) with real pending points in both later steps exceeds the 12 GB cap; (11, 9) under join_async_spawn! does not finish in 1200 s)
                   ("join_async", (10,), 1, True, True), ("try_join_async", (9, 10), 1, True, True), ("join_async", (12, 3, 12), 1, True, True),
-                  ("join_async", (2, 2), 2, True, "sstep"), ("try_join_async", (2, 2), 1, True, "sstep"), ("join_async_spawn", (2, 2), 1, True, "sstep"), ("join_async", (2, 3, 2), 1, True, "sstep")]
+                  # (measured: with gates <= 2, three branches, try_join_async! or join_async_spawn! the two-step sstep form still exceeds the 12 GB cap)
+                  ("join_async", (2, 2), 1, True, "sstep")]
         plan_f = [("join_async", 2, False), ("try_join_async", 2, False), ("join_async", 3, True), ("try_join_async", 3, True)]
     for macro, prof, gates, heavy, cheap in plan_n:
         i += 1
